@@ -9,7 +9,7 @@ use std::sync::Mutex;
 use rayon::prelude::*;
 use serde_json::json;
 
-use crate::report::{cov, Report, Scratch, Tier};
+use crate::report::{cov, machinery_fail, Report, Scratch, Tier};
 use crate::sut::{self, Outcome};
 
 #[derive(Clone, Copy, PartialEq, Eq, Debug, Hash, PartialOrd, Ord)]
@@ -425,19 +425,154 @@ pub fn run(tier: Tier) -> i32 {
             let _ = std::env::set_current_dir(o);
         }
     }
+    // hand-written trees for what the cutter cannot produce: the same file name in several
+    // directories, .exit inside a selected arm (include guards), a directory that carries the
+    // included name, files included twice
+    enum Want {
+        Pasted(&'static str),
+        ErrNaming(&'static str),
+    }
+    struct Tree {
+        name: &'static str,
+        files: Vec<(&'static str, &'static str)>,
+        caller_dirs: Vec<&'static str>,
+        /// directories to create without any file in them
+        dirs: Vec<&'static str>,
+        want: Want,
+    }
+    let trees: Vec<Tree> = vec![
+        Tree {
+            name: "same-name-beside-two-includers",
+            files: vec![
+                ("src/main.asm", ".include \"uart/uart.inc\"\n.include \"spi/spi.inc\"\nldi r16, UART_K\nldi r17, SPI_K\n"),
+                ("src/uart/uart.inc", ".include \"config.inc\"\n.equ UART_K = UART_CFG + 1\n"),
+                ("src/uart/config.inc", ".equ UART_CFG = 1\n"),
+                ("src/spi/spi.inc", ".include \"config.inc\"\n.equ SPI_K = SPI_CFG + 1\n"),
+                ("src/spi/config.inc", ".equ SPI_CFG = 4\n"),
+            ],
+            caller_dirs: vec![],
+            dirs: vec![],
+            want: Want::Pasted(".equ UART_CFG = 1\n.equ UART_K = UART_CFG + 1\n.equ SPI_CFG = 4\n.equ SPI_K = SPI_CFG + 1\nldi r16, UART_K\nldi r17, SPI_K\n"),
+        },
+        Tree {
+            name: "name-that-exists-only-beside-another-includer",
+            files: vec![
+                ("src/main.asm", ".include \"drv/drv.inc\"\n.include \"only_here.inc\"\nnop\n"),
+                ("src/drv/drv.inc", ".include \"only_here.inc\"\n"),
+                ("src/drv/only_here.inc", "ldi r16, 1\n"),
+            ],
+            caller_dirs: vec![],
+            dirs: vec![],
+            want: Want::ErrNaming("only_here.inc"),
+        },
+        Tree {
+            name: "include-guard-with-exit",
+            files: vec![
+                ("src/main.asm", ".include \"lib.inc\"\nldi r16, LIB_K\n.include \"lib.inc\"\nldi r17, LIB_K + 1\n"),
+                ("src/lib.inc", ".ifdef LIB_INC\n.exit\n.endif\n.define LIB_INC\n.equ LIB_K = 7\nldi r18, 1\n"),
+            ],
+            caller_dirs: vec![],
+            dirs: vec![],
+            want: Want::Pasted(".define LIB_INC\n.equ LIB_K = 7\nldi r18, 1\nldi r16, LIB_K\nldi r17, LIB_K + 1\n"),
+        },
+        Tree {
+            name: "exit-in-selected-else-arm-and-nested",
+            files: vec![
+                ("src/main.asm", ".equ MODE = 2\n.include \"a.inc\"\nldi r16, 1\n.include \"sub/b.inc\"\nldi r16, 2\n"),
+                ("src/a.inc", "ldi r17, 1\n.if MODE == 1\nldi r17, 2\n.else\nldi r17, 3\n.exit\n.endif\nldi r17, 4\n"),
+                ("src/sub/b.inc", ".if 1\n.if MODE > 1\nldi r18, 1\n.include \"c.inc\"\nldi r18, 2\n.exit\n.endif\n.endif\n!! never read\n"),
+                ("src/sub/c.inc", ".if 1\n.exit\n.endif\nldi r19, 9\n"),
+            ],
+            caller_dirs: vec![],
+            dirs: vec![],
+            want: Want::Pasted(".equ MODE = 2\nldi r17, 1\nldi r17, 3\nldi r16, 1\nldi r18, 1\nldi r18, 2\nldi r16, 2\n"),
+        },
+        Tree {
+            name: "directory-with-the-included-name-comes-first",
+            files: vec![
+                ("src/main.asm", ".include \"tables.inc\"\nldi r16, TAB_K\n"),
+                ("ext/tables.inc", ".equ TAB_K = 5\n"),
+            ],
+            caller_dirs: vec!["ext"],
+            dirs: vec!["src/tables.inc"],
+            want: Want::Pasted(".equ TAB_K = 5\nldi r16, TAB_K\n"),
+        },
+        Tree {
+            name: "only-a-directory-with-the-included-name",
+            files: vec![("src/main.asm", ".include \"tables.inc\"\nnop\n")],
+            caller_dirs: vec![],
+            dirs: vec!["src/tables.inc"],
+            want: Want::ErrNaming("tables.inc"),
+        },
+        Tree {
+            name: "includepath-in-include-naming-its-own-directory",
+            files: vec![
+                ("src/main.asm", ".include \"cfg/paths.inc\"\n.include \"g.inc\"\nldi r16, G_K\n"),
+                ("src/cfg/paths.inc", ".includepath \".\"\n"),
+                ("src/cfg/g.inc", ".equ G_K = 6\n"),
+            ],
+            caller_dirs: vec![],
+            dirs: vec![],
+            want: Want::Pasted(".equ G_K = 6\nldi r16, G_K\n"),
+        },
+    ];
+    let n_trees = trees.len();
+    for (ti, t) in trees.iter().enumerate() {
+        let root = scratch.path.join(format!("tree{}", ti));
+        let mut files: BTreeMap<String, String> = BTreeMap::new();
+        for d in t.dirs.iter() {
+            let _ = std::fs::create_dir_all(root.join(d));
+        }
+        for (p, text) in t.files.iter() {
+            write_file(&root.join(p), text, &mut files, &root);
+        }
+        let paths: BTreeSet<PathBuf> = t.caller_dirs.iter().map(|d| root.join(d)).collect();
+        let o = sut::build_file(root.join("src/main.asm"), paths);
+        evals.fetch_add(1, Ordering::Relaxed);
+        let bad: Option<(&str, String)> = match (&t.want, &o) {
+            (Want::Pasted(flat), Outcome::Ok(b)) => match sut::build_str(flat) {
+                Outcome::Ok(r) => {
+                    if b.code != r.code || b.eeprom != r.eeprom || b.ram_filling != r.ram_filling {
+                        Some(("differs-from-pasted", format!("the tree assembles to {} but the pasted text to {}", sut::hex_trunc(&b.code, 40), sut::hex_trunc(&r.code, 40))))
+                    } else {
+                        None
+                    }
+                }
+                other => machinery_fail(&format!("the pasted text of tree '{}' does not build: {}", t.name, other.brief())),
+            },
+            (Want::Pasted(_), Outcome::Err(e)) => Some(("rejected", format!("the pasted text builds but the tree fails: {}", e))),
+            (Want::ErrNaming(_), Outcome::Ok(b)) => Some(("found-where-it-is-not", format!("the included file exists in none of the places searched, but the build succeeds: {}", sut::hex_trunc(&b.code, 40)))),
+            (Want::ErrNaming(f), Outcome::Err(e)) => {
+                if e.contains(f) {
+                    None
+                } else {
+                    Some(("error-does-not-name-the-file", format!("the error does not name {}: {}", f, e)))
+                }
+            }
+            (_, Outcome::Panic { site, msg }) => Some(("panic", format!("panic at {}: {}", site, msg))),
+        };
+        if let Some((kind, what)) = bad {
+            rep.violation(&format!("C11/{}/tree={}", kind, t.name), || what, || {
+                json!({"kind": "file_tree", "files": files, "main": "src/main.asm", "caller_paths": t.caller_dirs, "empty_directories": t.dirs,
+                       "pasted_program": if let Want::Pasted(f) = &t.want { json!(f) } else { json!(null) }, "must_fail": matches!(t.want, Want::ErrNaming(_)), "observed": o.to_json()})
+            });
+        }
+        let _ = std::fs::remove_dir_all(&root);
+    }
     let distinct = outcomes.lock().unwrap().len();
     rep.guard(items.len() > 2000, "fewer than 2000 configurations");
     rep.guard(loc_use.lock().unwrap().len() == 8, "not every location kind was used");
     rep.guard(n_ok.load(Ordering::Relaxed) > 1000 && n_err.load(Ordering::Relaxed) > 300, "need both found and not-found outcomes");
-    rep.assume("every file name is unique in the tree, so precedence among several hits is never exercised");
+    rep.assume("in the enumerated trees every file name is unique, so precedence among several hits is not exercised there; the hand-written trees have the same name beside two different includers (each includer has exactly one hit)");
     rep.assume("a file is cut only at unit boundaries: a macro definition or a conditional construct stays within one file");
     rep.assume("messages are compared by marker text, number and order (not format, file or line)");
     let coverage = cov(json!({
         "evaluations": evals.load(Ordering::Relaxed),
         "distinct_nontrivial": items.len(),
-        "rule": "5 base programs with cross-boundary dependencies (constants in both directions, a macro defined in one file and called in others, .device inside an include followed by a device-dependent lds, a complete conditional and .define flags, EEPROM data) x every way of cutting contiguous unit blocks into <=2 (thorough 3) include files (one include, nested, siblings) x every location kind per include edge (same directory, sub-directory in the path, caller-supplied directory, relative / absolute .includepath in the includer, .includepath in a previously included file, absolute path as written, nowhere) x .exit at the end of the innermost file; plus a subset run with the main file given relative to the current directory. distinct_nontrivial = distinct configurations (each is a real directory tree)",
+        "rule": "5 base programs with cross-boundary dependencies (constants in both directions, a macro defined in one file and called in others, .device inside an include followed by a device-dependent lds, a complete conditional and .define flags, EEPROM data) x every way of cutting contiguous unit blocks into <=2 (thorough 3) include files (one include, nested, siblings) x every location kind per include edge (same directory, sub-directory in the path, caller-supplied directory, relative / absolute .includepath in the includer, .includepath in a previously included file, absolute path as written, nowhere) x .exit at the end of the innermost file; plus a subset run with the main file given relative to the current directory; plus hand-written trees: the same file name in several directories, include guards and other .exit inside selected arms (nested, in an include of an include), a directory that carries the included name, a name that exists only beside another includer (must fail, naming it), .includepath \".\" inside an include. distinct_nontrivial = distinct configurations (each is a real directory tree)",
         "exhaustive": true,
         "cwd_relative_cases": cwd_cases,
+        "hand_written_trees": n_trees,
         "location_kind_use": *loc_use.lock().unwrap(),
         "distinct_observed_outcomes": distinct,
         "outcomes": {"ok": n_ok.load(Ordering::Relaxed), "err": n_err.load(Ordering::Relaxed)},
